@@ -402,7 +402,7 @@ func concretisations(ctx *core.Ctx, gi int, gc genCase) []spec {
 				}
 				s := spec{Num: num, API: "Foreign", Foreign: variant, Fan: fan, N: gc.N, Seed: ctx.Seed, Per: 2}
 				if num {
-					s.Style = numStyles[(rot+v+1)%4]
+					s.Style = numStyles[(rot+v+1)%len(numStyles)]
 				} else {
 					s.Style = nameStyles[(rot+v)%4]
 				}
@@ -436,7 +436,7 @@ func concretisations0(ctx *core.Ctx, gi int, gc genCase) (out []spec) {
 			}
 			out = append(out,
 				spec{API: "Write", Style: nameStyles[(rot+k)%4], N: gc.N, Seed: ctx.Seed, Bad: gc.Bad, At: gc.At, Per: 1},
-				spec{Num: true, API: "Write", Style: numStyles[(rot+k+1)%4], N: gc.N, Seed: ctx.Seed, Bad: gc.Bad, At: gc.At, Per: 1})
+				spec{Num: true, API: "Write", Style: numStyles[(rot+k+1)%len(numStyles)], N: gc.N, Seed: ctx.Seed, Bad: gc.Bad, At: gc.At, Per: 1})
 		}
 		return out
 	}
@@ -470,6 +470,10 @@ func concretisations0(ctx *core.Ctx, gi int, gc genCase) (out []spec) {
 			out = append(out, spec{API: other, Style: nameStyles[si], N: gc.N, Seed: ctx.Seed, Per: per, Probe: probe})
 		}
 		out = append(out, spec{Num: true, API: "Write", Style: numStyles[si], N: gc.N, Seed: ctx.Seed, Per: per, Probe: probe})
+		if si == rot%4 {
+			// keys that are all negative (every size)
+			out = append(out, spec{Num: true, API: "Write", Style: "negative", N: gc.N, Seed: ctx.Seed, Per: per, Probe: probe})
+		}
 	}
 	return out
 }
